@@ -204,18 +204,22 @@ pub fn show_op<C: CT>(op: &Op<C>) -> String {
     )
 }
 
-/// Short class of a `process` error.
+/// Short class of a `process` error (variant name, plus the inner variant for state-change
+/// errors).  Derived from the Debug form so that error variants added to the library later (e.g.
+/// by a proposed fix) do not break the harness build.
 pub fn err_class<C: CT>(e: &PErr<C>) -> String {
     match e {
-        GroupCrdtError::Inner(_) => "states-not-found".into(),
-        GroupCrdtError::DuplicateOperation(..) => "duplicate".into(),
-        GroupCrdtError::GroupCycle(..) => "cycle".into(),
         GroupCrdtError::StateChangeError(_, inner) => {
             let s = format!("{inner:?}");
             format!("state-change-{}", s.split('(').next().unwrap_or("?"))
         }
+        GroupCrdtError::DuplicateOperation(..) => "duplicate".into(),
+        GroupCrdtError::GroupCycle(..) => "cycle".into(),
         GroupCrdtError::ManagerGroupsNotAllowed(_) => "manager-group".into(),
-        GroupCrdtError::Resolver(_) => "resolver".into(),
+        other => {
+            let s = format!("{other:?}");
+            s.split(['(', ' ', '{']).next().unwrap_or("?").to_string()
+        }
     }
 }
 
